@@ -197,6 +197,8 @@ class BubblePoint:
     
     def __call__(self, z, *, T=None, P=None, liquid_conversion=None):
         z = np.asarray(z, float)
+        z_sum = z.sum()
+        if z_sum > 0.: z = z / z_sum # Results depend only on the normalized composition
         if T:
             if P: raise ValueError("may specify either T or P, not both")
             P, *args = self.solve_Py(z, T, liquid_conversion)
